@@ -177,6 +177,17 @@ impl<'tcx> Cx<'tcx> {
                 o.put("path", jstr(self.path(alias.kind.def_id())));
                 let a = self.gargs_json(alias.args);
                 o.put("args", a);
+                // declared bounds of the associated type (e.g. `type Error: de::Error`)
+                let adef = alias.kind.def_id();
+                if matches!(self.tcx.def_kind(adef), DefKind::AssocTy) {
+                    let mut bs = Vec::new();
+                    for clause in self.tcx.item_bounds(adef).skip_binder().iter() {
+                        if let Some(tp) = clause.as_trait_clause() {
+                            bs.push(jstr(self.path(tp.skip_binder().def_id())));
+                        }
+                    }
+                    o.put("bounds", J::A(bs));
+                }
             }
             ty::Dynamic(..) => {
                 o.put("k", jstr("dyn"));
